@@ -26,7 +26,7 @@ REGISTRY = {
     'C12': ['contracts.c12'],
     'C13': ['contracts.c13', ('contracts.c12', only('frame('))],     # process independence includes history independence
     'C14': ['contracts.c14', 'contracts.c14p'],
-    'C15': ['contracts.c15'],
+    'C15': ['contracts.c15', 'contracts.c15p'],
     'C17': ['contracts.c17'],
     'C18': ['contracts.c18'],
 }
